@@ -85,6 +85,9 @@ impl WriteBatch {
 
 struct KeyValueStoreState {
     seq_no: u64,
+    // The highest sequence number such that every batch sequenced at or below it has been applied
+    // in full.  Reads take their snapshot here, so a batch is seen whole or not at all.
+    visible_seq_no: u64,
     imm: Option<Arc<MemTable>>,
     imm_trigger: u64,
     mem: Arc<MemTable>,
@@ -129,6 +132,7 @@ impl KeyValueStore {
         seq_no += 1;
         let state = Mutex::new(KeyValueStoreState {
             seq_no,
+            visible_seq_no: seq_no,
             imm,
             imm_trigger,
             mem,
@@ -349,7 +353,7 @@ impl KeyValueStore {
 
     pub fn write(&self, mut batch: WriteBatch) -> Result<(), SError> {
         batch.retain_last_write_per_key();
-        let (mut wait_guard, memtable, log) = {
+        let (mut wait_guard, memtable, log, seq_no) = {
             let mut state = self.state.lock().unwrap();
             let wait_guard = self.wait_list.link(());
             let seq_no = state.seq_no + 1;
@@ -364,6 +368,7 @@ impl KeyValueStore {
                 wait_guard,
                 Arc::clone(&state.mem),
                 Arc::clone(&state.mem_log),
+                seq_no,
             )
         };
         // NOTE(rescrv):  Whatever happens to the batch, leave the wait list the same way.  A writer
@@ -375,6 +380,9 @@ impl KeyValueStore {
         while !wait_guard.is_head() {
             state = wait_guard.naked_wait(state);
         }
+        // NOTE(rescrv):  Writers leave the wait list in sequence order and only after applying their
+        // batch, so every batch up to and including this one is in the memtable in full.
+        state.visible_seq_no = std::cmp::max(state.visible_seq_no, seq_no);
         drop(wait_guard);
         self.wait_list.notify_head();
         result
@@ -400,7 +408,7 @@ impl KeyValueStore {
             let mem = Arc::clone(&state.mem);
             let imm = state.imm.clone();
             let version = self.tree.take_snapshot();
-            (mem, imm, version, state.seq_no)
+            (mem, imm, version, state.visible_seq_no)
         };
         *is_tombstone = false;
         let ret = mem.load(key, timestamp, is_tombstone)?;
@@ -427,7 +435,7 @@ impl KeyValueStore {
             let mem = Arc::clone(&state.mem);
             let imm = state.imm.clone();
             let version = self.tree.take_snapshot();
-            (mem, imm, version, state.seq_no)
+            (mem, imm, version, state.visible_seq_no)
         };
         let mut cursors: Vec<Box<dyn Cursor>> = Vec::with_capacity(3);
         let mut mem_scan = mem.range_scan(start_bound, end_bound, timestamp)?;
